@@ -8,6 +8,7 @@
 package clusterp
 
 import (
+	"bytes"
 	"encoding/json"
 	"fmt"
 	"sort"
@@ -28,6 +29,32 @@ type memNet struct {
 	mu      sync.Mutex
 	engines map[string]*actor.Engine
 	down    map[string]bool
+	// sent: what was handed to Send since the last check, with the bytes it serialised to at that
+	// moment.  A real remote serialises LATER, on the stream writer's goroutine: a message that reads
+	// differently by then was modified (or shares memory with something that was) after it was handed over.
+	sent []sentRec
+}
+
+type sentRec struct {
+	msg  any
+	b    []byte
+	to   string
+	name string
+}
+
+func (n *memNet) handedOverIntact() error {
+	n.mu.Lock()
+	recs := n.sent
+	n.sent = nil
+	n.mu.Unlock()
+	ser := remote.ProtoSerializer{}
+	for _, r := range recs {
+		b, err := ser.Serialize(r.msg)
+		if err != nil || !bytes.Equal(b, r.b) {
+			return fmt.Errorf("a %s handed to the remote for %s reads differently now than at the moment of the Send (%d bytes then, %d now, err=%v): the remote serialises a message after Send has returned, what the peer gets is not what was sent", r.name, r.to, len(r.b), len(b), err)
+		}
+	}
+	return nil
 }
 
 type memRemote struct {
@@ -54,6 +81,9 @@ func (r *memRemote) Send(pid *actor.PID, msg any, sender *actor.PID) {
 		return
 	}
 	r.net.mu.Lock()
+	if len(r.net.sent) < 4096 {
+		r.net.sent = append(r.net.sent, sentRec{msg, b, pid.String(), ser.TypeName(msg)})
+	}
 	e := r.net.engines[pid.Address]
 	if r.net.down[pid.Address] || r.net.down[r.addr] {
 		e = nil
@@ -79,6 +109,9 @@ type AOp struct {
 	// slowjoin: bit i set = the i-th current member hears of the join at once, otherwise only after
 	// the activation in the middle of the op
 	Mask int `json:"mask,omitempty"`
+	// Twice: (deactivate) the same PID is deactivated a second time, through another member
+	Twice bool `json:"twice,omitempty"`
+	N     int  `json:"n,omitempty"` // bulk: number of actors
 }
 
 type ACase struct {
@@ -186,6 +219,9 @@ func runAct(c ACase) (map[string]int, error) {
 	model := map[string]*actor.PID{} // "kind/id" -> PID
 	nspawns := 0
 	verify := func(what string) error {
+		if err := net.handedOverIntact(); err != nil {
+			return fmt.Errorf("%s: %v", what, err)
+		}
 		w.mu.Lock()
 		ns := len(w.spawns)
 		w.mu.Unlock()
@@ -204,6 +240,24 @@ func runAct(c ACase) (map[string]int, error) {
 					}
 					if wp != nil {
 						want = append(want, wp.String())
+					}
+				}
+				if k == "free" {
+					// the bulk population, if any: every entry resolves on this node
+					nb := 0
+					for bk, wp := range model {
+						if !strings.HasPrefix(bk, "bulk/") {
+							continue
+						}
+						nb++
+						if got := cls[n].GetActiveByID(bk); got == nil || !got.Equals(wp) {
+							return fmt.Errorf("%s: on n%d GetActiveByID(%q) = %v, want %v (one of the bulk actors)", what, n, bk, got, wp)
+						}
+					}
+					if nb > 0 {
+						if l := cls[n].GetActiveByKind("bulk"); len(l) != nb {
+							return fmt.Errorf("%s: on n%d GetActiveByKind(\"bulk\") lists %d actors, %d are active", what, n, len(l), nb)
+						}
 					}
 				}
 				var gotL []string
@@ -341,6 +395,35 @@ func runAct(c ACase) (map[string]int, error) {
 			}
 			delete(model, key)
 			feat["deactivate"]++
+			if op.Twice {
+				// a second Deactivate of the same PID (a retry, or another member's): a Deactivation for
+				// an id nobody knows any more changes nothing - also not what a later Activate finds
+				jl2 := joinedList()
+				via2 := jl2[(op.Sel%len(jl2)+len(jl2))%len(jl2)]
+				cls[via2].Deactivate(pid)
+				for _, n := range jl2 {
+					cls[n].Members()
+				}
+				feat["deactivate-repeated"]++
+			}
+		case "bulk":
+			// more active actors than any batch size somebody might think of: 130..160 actors of their
+			// own kind, spawned through one member; whoever joins later must learn every one of them
+			if op.N < 1 || op.N > 200 || model["bulk/b0"] != nil {
+				continue
+			}
+			for i := 0; i < op.N; i++ {
+				bk := fmt.Sprintf("bulk/b%d", i)
+				pid := cls[via].Spawn(func() actor.Receiver { return stubProvider{} }, "bulk", actor.WithID(fmt.Sprintf("b%d", i)))
+				if pid == nil || pid.ID != bk {
+					return nil, fmt.Errorf("%s: Cluster.Spawn returned %v", what, pid)
+				}
+				model[bk] = pid
+			}
+			for _, n := range joinedList() {
+				cls[n].Members()
+			}
+			feat["more-than-128-active-actors"]++
 		case "cspawn":
 			key = "free/" + idStr(op.ID)
 			if model[key] != nil {
@@ -530,13 +613,16 @@ func genAct(t *rapid.T) ACase {
 	}
 	n := rapid.IntRange(1, 14).Draw(t, "ops")
 	for i := 0; i < n; i++ {
-		op := AOp{K: rapid.SampledFrom([]string{"activate", "activate", "activate", "activate", "deactivate", "cspawn", "join", "lagjoin", "slowjoin", "leave", "swap"}).Draw(t, "k")}
+		op := AOp{K: rapid.SampledFrom([]string{"activate", "activate", "activate", "activate", "deactivate", "deactivate", "cspawn", "join", "lagjoin", "slowjoin", "leave", "swap"}).Draw(t, "k")}
 		op.Via = rapid.IntRange(0, 3).Draw(t, "via")
 		switch op.K {
 		case "activate", "deactivate":
 			op.Kind = rapid.SampledFrom([]int{0, 0, 1, 1, 2, 3}).Draw(t, "kind")
 			op.ID = rapid.IntRange(0, 2).Draw(t, "id")
 			op.Sel = rapid.IntRange(0, 3).Draw(t, "sel")
+			if op.K == "deactivate" {
+				op.Twice = rapid.Bool().Draw(t, "twice")
+			}
 		case "cspawn":
 			op.ID = rapid.IntRange(0, 2).Draw(t, "id")
 		case "join", "leave", "lagjoin":
@@ -552,6 +638,12 @@ func genAct(t *rapid.T) ACase {
 			op.Node2 = rapid.IntRange(0, 3).Draw(t, "node2")
 		}
 		c.Ops = append(c.Ops, op)
+	}
+	// one case in ten: a bulk population early in the history
+	if rapid.IntRange(0, 9).Draw(t, "bulkcase") == 0 {
+		at := rapid.IntRange(0, min(2, len(c.Ops))).Draw(t, "bulkat")
+		b := AOp{K: "bulk", N: rapid.IntRange(129, 160).Draw(t, "bulkn"), Via: rapid.IntRange(0, 3).Draw(t, "bulkvia")}
+		c.Ops = append(c.Ops[:at:at], append([]AOp{b}, c.Ops[at:]...)...)
 	}
 	return c
 }
